@@ -90,7 +90,8 @@ def densify_deps(rng, project, p=0.45, k=(1, 1, 2, 3)):
     for tp in order:
         t = tests[tp]
         if rng.random() < p:
-            cands = [q for q in order if pos[q] < pos[tp] and list(q) not in t["deps"]]
+            # `depends_on` is written with dotted strings: targets (and their ancestors) have dot-free names
+            cands = [q for q in order if pos[q] < pos[tp] and list(q) not in t["deps"] and all("." not in x for x in q)]
             for q in rng.sample(cands, min(len(cands), rng.choice(list(k)))):
                 if len(t["deps"]) < 3:
                     t["deps"].append(list(q))
@@ -316,10 +317,26 @@ def inject_attr(shape, f):
     return {"plain": f, "inj": "inj_" + f, "under": "_" + f, "mangled": "__" + f}[shape]
 
 
+def safe_attr(name, used):
+    """a Python identifier for a test function whose TEST name may be anything (`@lcc.test(name="v1.2")`), unique in its class"""
+    import keyword
+    import re
+    a = name if (name.isidentifier() and not keyword.iskeyword(name) and not name.startswith("__")) else "t_" + re.sub(r"\W", "_", name)
+    base, k = a, 1
+    while a in used:
+        k += 1
+        a = "%s_%d" % (base, k)
+    used.add(a)
+    return a
+
+
 def describe(project, plan, order_seed=0):
     """-> (description {"classes", "bases"}, maps) ; maps: class attr -> suite path, (class attr, decl attr, first parameter) ->
     test name, class attr -> {fixture: stored attribute key}"""
     rnd = random.Random(order_seed)
+    counts = {}
+    for tp, t, *_ in G.iter_tests(project):
+        counts[t["name"]] = counts.get(t["name"], 0) + 1
     bases = {n: {"name": n, "bases": list(b.get("bases", [])), "inject": [], "plain": [], "hooks": {}} for n, b in plan["bases"].items()}
     maps = {"suite_of": {}, "test_of": {}, "attrs": {}, "scripts": {}, "hooks": {}}
     ctr = {"c": 0}
@@ -355,21 +372,28 @@ def describe(project, plan, order_seed=0):
         for g in ent["groups"]:
             for n in g["tests"]:
                 grouped[n] = g
-        done = set()
+        done = {}
+        used = set(G.HOOKS)
         for t in s["tests"]:
             g = grouped.get(t["name"])
-            dattr = g["attr"] if g else t["name"]
+            dname = g["attr"] if g else t["name"]           # the NAME the declaration carries (`@lcc.test(name=…)` when not an identifier)
+            if dname not in done:
+                done[dname] = safe_attr(dname, used)
+                fresh = True
+            else:
+                fresh = False
+            dattr = done[dname]                              # the function's identifier
             maps["scripts"][tuple(sp + [t["name"]])] = t["script"]
             if g:
                 maps["test_of"][(attr, dattr, g["tests"].index(t["name"]))] = t["name"]
             else:
                 maps["test_of"][(attr, dattr, None)] = t["name"]
-            if dattr in done:
+            if not fresh:
                 continue
-            done.add(dattr)
-            d = {"attr": dattr, "name": None, "desc": "test " + dattr, "disabled": t["disabled"] if t["disabled"] else False,
+            d = {"attr": dattr, "name": None if dattr == dname else dname, "desc": "test " + dname, "disabled": t["disabled"] if t["disabled"] else False,
                  "empty_reason": False, "tags": [], "props": [], "links": [], "hidden": False, "param": None,
-                 "order": rnd.randrange(1 << 16), "args": list(t["fixtures"]), "dep_groups": _dep_groups(t["deps"], ent["deps"].get(dattr))}
+                 "order": rnd.randrange(1 << 16), "args": list(t["fixtures"]),
+                 "dep_groups": _dep_groups(t["deps"], ent["deps"].get(dname), counts)}
             if g:
                 k = len(g["tests"])
                 if g["naming"] == "default":
@@ -406,7 +430,7 @@ def describe(project, plan, order_seed=0):
     return {"classes": classes, "bases": [bases[n] for n in ordered]}, maps
 
 
-def _dep_groups(deps, how):
+def _dep_groups(deps, how, counts=None):
     items = [".".join(d) for d in deps]
     if not items:
         return []
@@ -414,7 +438,9 @@ def _dep_groups(deps, how):
     out = []
     for j, p in enumerate(items):
         if j in how["preds"]:
-            out.append({"pred": ("name=" + p.rsplit(".", 1)[1]) if how.get("pred_kind") == "name" else ("path=" + p)})
+            # a name predicate only where it selects exactly this test (test names may repeat across suites)
+            by_name = how.get("pred_kind") == "name" and (counts or {}).get(deps[j][-1], 1) == 1
+            out.append({"pred": ("name=" + deps[j][-1]) if by_name else ("path=" + p)})
         else:
             out.append(p)
     cuts = [c for c in how["cuts"] if 0 < c < len(out)]
